@@ -389,7 +389,7 @@ func main() {
 	}
 	timed := []event{{Op: "adv", T: 1}, {Op: "adv", T: 499 * time.Millisecond}, {Op: "adv", T: 500 * time.Millisecond}}
 	tick := event{Op: "tick"}
-	depth := ev.Pick(r, 8, 10)
+	depth := ev.Pick(r, 8, 14)
 	if d := os.Getenv("VERIF_DEPTH"); d != "" {
 		fmt.Sscan(d, &depth)
 	}
